@@ -561,7 +561,6 @@ def r3g(ctx: Ctx) -> list[Ob]:
                         ranges.append((e.args[0], other))
         if not ranges:
             out.append(unres("R3g", f.qualname, "shortcut", "index-free shortcuts without a `== list(range(n))` comparison (another formulation): no verdict", f.loc))
-            continue
         for i, (bound, other) in enumerate(ranges):
             names = {x.id for e in ld.expand(bound) for x in ast.walk(e) if isinstance(x, ast.Name)}
             direct = {x.id for x in ast.walk(bound) if isinstance(x, ast.Name)}
@@ -574,4 +573,128 @@ def r3g(ctx: Ctx) -> list[Ob]:
                 out.append(ok("R3g", f.qualname, inst, "the compared range is bounded by the sources' fold counts (num_folds)", f.loc))
             else:
                 out.append(viol("R3g", f.qualname, inst, f"the index-free shortcut compares the cumulative index with range({unparse(bound)}), which does not derive from num_folds: selecting a prefix of a module with more folds is mistaken for 'all of it'", f.loc))
+            # (b) the compared index keeps its order: a gather is the identity only for 0, 1, .., n-1 *in this order*
+            lossy = _order_destroying(ld, other)
+            inst_o = f"in-order#{i}:{unparse(bound)[:40]}"
+            if lossy:
+                out.append(viol("R3g", f.qualname, inst_o, f"the index-free shortcut compares `{unparse(other)[:70]}` with the range after passing the cumulative index through {lossy}: any permutation of the inputs compares equal, and an order-sensitive module (Kronecker / Tucker product, n-ary sum) then receives its inputs in folding order instead of the declared order", f.loc))
+            else:
+                out.append(ok("R3g", f.qualname, inst_o, "the index is compared element by element, in order", f.loc))
+        # (c) every index-free value is control-dependent on an element-wise comparison of the index
+        par: dict[int, ast.AST] = {}
+        for n in ast.walk(f.node):
+            for c in ast.iter_child_nodes(n):
+                par[id(c)] = n
+        idx_names = {
+            x.id
+            for n in ast.walk(f.node)
+            if isinstance(n, ast.Call) and (dotted(n.func) or "").endswith("tensor") and n.args
+            for x in ast.walk(n.args[0])
+            if isinstance(x, ast.Name)
+        }
+        range_cmps = set()
+        for n in ast.walk(f.node):
+            if isinstance(n, ast.Compare) and len(n.ops) == 1 and isinstance(n.ops[0], ast.Eq):
+                if any(_range_form(_hoist(ld, x)) for x in (n.left, n.comparators[0])):
+                    range_cmps.add(id(n))
+        for k, sc in enumerate(shortcuts):
+            tests: list[ast.AST] = []
+            cur: ast.AST | None = sc
+            while cur is not None and cur is not f.node:
+                up = par.get(id(cur))
+                if isinstance(up, ast.If) and any(cur is b for b in up.body):
+                    tests.append(up.test)
+                if isinstance(up, ast.IfExp) and cur is up.body:
+                    tests.append(up.test)
+                cur = up
+            eqs = [n for t in tests for n in ast.walk(t) if isinstance(n, ast.Compare) and any(isinstance(o, ast.Eq) for o in n.ops)]
+            elementwise = [n for n in eqs if any(_reads_elements(ld, x, idx_names) for x in [n.left, *n.comparators])]
+            inst_g = f"guarded#{k}:{unparse(sc)}"
+            loc = f"{f.module.relpath}:{sc.lineno}"
+            if any(id(n) in range_cmps for n in elementwise):
+                out.append(ok("R3g", f.qualname, inst_g, "returned only under a comparison of the index with a range", loc))
+            elif not elementwise:
+                out.append(viol("R3g", f.qualname, inst_g, f"the index-free form {unparse(sc)} is chosen without comparing the elements of the cumulative index with anything (only lengths / counts are tested): an index of the right length that selects other folds, or the same folds in another order, is replaced by 'take everything in storage order'", loc))
+            else:
+                out.append(unres("R3g", f.qualname, inst_g, "guarded by an element-wise comparison this rule has no model of: no verdict", loc))
     return out
+
+
+def _reads_elements(ld: LocalDefs, e: ast.AST, idx_names: set[str]) -> bool:
+    """does the expression depend on the *elements* of the cumulative index (not only on lengths)?"""
+
+    def visit(n: ast.AST, comp_targets: frozenset[str]) -> bool:
+        if isinstance(n, ast.Call) and isinstance(n.func, ast.Name) and n.func.id == "len":
+            return False
+        if isinstance(n, (ast.ListComp, ast.GeneratorExp, ast.SetComp)):
+            # elements are read if the comprehension's *element* uses them; iterating only to count does not
+            bound = set(comp_targets)
+            elem_vars: set[str] = set()
+            for g in n.generators:
+                src_reads = visit(g.iter, frozenset(bound)) or any(isinstance(x, ast.Name) and (x.id in idx_names or x.id in elem_vars) for x in ast.walk(g.iter))
+                if src_reads:
+                    elem_vars |= {t.id for t in ast.walk(g.target) if isinstance(t, ast.Name)}
+            return any(isinstance(x, ast.Name) and x.id in elem_vars for x in _walk_skip_len(n.elt))
+        if isinstance(n, ast.Name):
+            if n.id in idx_names:
+                return True
+            return False
+        return any(visit(c, comp_targets) for c in ast.iter_child_nodes(n))
+
+    return visit(e, frozenset()) or visit(_hoist(ld, e), frozenset())
+
+
+def _walk_skip_len(n: ast.AST):
+    if isinstance(n, ast.Call) and isinstance(n.func, ast.Name) and n.func.id == "len":
+        return
+    yield n
+    for c in ast.iter_child_nodes(n):
+        yield from _walk_skip_len(c)
+
+
+def _range_form(e: ast.AST) -> bool:
+    """``range(n)`` / ``list(range(n))`` / ``[i for i in range(n)]`` / ``[[i] for i in range(n)]``"""
+    if isinstance(e, ast.Call) and isinstance(e.func, ast.Name) and e.func.id in ("list", "tuple") and len(e.args) == 1:
+        e = e.args[0]
+    if isinstance(e, ast.Call) and isinstance(e.func, ast.Name) and e.func.id == "range":
+        return True
+    if isinstance(e, (ast.ListComp, ast.GeneratorExp)) and len(e.generators) == 1 and not e.generators[0].ifs:
+        g = e.generators[0]
+        it = g.iter
+        if isinstance(it, ast.Call) and isinstance(it.func, ast.Name) and it.func.id == "range" and isinstance(g.target, ast.Name):
+            elt = e.elt
+            if isinstance(elt, ast.Name) and elt.id == g.target.id:
+                return True
+            if isinstance(elt, (ast.List, ast.Tuple)) and len(elt.elts) == 1 and isinstance(elt.elts[0], ast.Name) and elt.elts[0].id == g.target.id:
+                return True
+    return False
+
+
+ORDER_DESTROYING = {"sorted", "set", "frozenset", "Counter", "reversed", "unique", "sort"}
+
+
+def _hoist(ld: LocalDefs, e: ast.AST, depth: int = 4) -> ast.AST:
+    """follow a plain local that was assigned exactly once (``flat = [..]; if flat == ..``); loop and
+    comprehension variables are not followed (LocalDefs is flow-insensitive about them)"""
+    while depth and isinstance(e, ast.Name):
+        ds = ld.defs.get(e.id, [])
+        if len(ds) != 1 or e.id in ld.params:
+            break
+        d = ds[0]
+        if isinstance(d, ast.Subscript) and isinstance(d.slice, ast.Name) and d.slice.id == "*":
+            break
+        e = d
+        depth -= 1
+    return e
+
+
+def _order_destroying(ld: LocalDefs, e: ast.AST) -> str | None:
+    for x in [_hoist(ld, e)]:
+        for n in ast.walk(x):
+            if isinstance(n, ast.Call):
+                name = (dotted(n.func) or "").split(".")[-1]
+                if name in ORDER_DESTROYING:
+                    return f"{name}(..)"
+            if isinstance(n, (ast.Set, ast.SetComp)):
+                return "a set"
+    return None
